@@ -19,7 +19,7 @@ LEVEL = "exploration"
 RULE = (
     "one case per input text run through Program.assemble_string_with_emitter under the T-steps monitor (LINE+PY_START+JUMP events inside "
     "a816): every sequence of <= 2 (quick) / <= 3 (thorough) tokens over a 72-token alphabet joined with '', ' ' and newline, random "
-    "sequences of 3-30 tokens, operand and directive expressions drawn from a grammar (unary/binary operators over small, large and negative values), inputs with .include/.incbin/.table/.include_ips of missing, existing, self-including and mutually including (2- and 3-cycles) files run through the file "
+    "sequences of 3-30 tokens, the texts of command-line definitions (-D NAME=<text>: every sequence of <= 2 tokens, random longer ones) through eval_expression_str, operand and directive expressions drawn from a grammar (unary/binary operators over small, large and negative values), inputs with .include/.incbin/.table/.include_ips of missing, existing, self-including and mutually including (2- and 3-cycles) files run through the file "
     "front end under an absolute and a relative source path, and every truncation (each character position), token deletion and duplication of valid generated programs; "
     "violated when the step count exceeds B = 200000 + 20000*len + sum over .for expansions of trips*(2000+200*len); distinct by hash of the "
     "text; non-trivial = the monitor counted at least one step for it"
@@ -125,6 +125,13 @@ def confirm_stall(hb: dict):
 
 def _run_via(text: str, via: str, cwd: str, writer) -> None:
     prog = new_program()
+    if via == "define_value":
+        # the text of a command-line definition (x816 -D NAME=<text>) goes through the scanner, the parser and the evaluator as well
+        from a816.parse.ast.expression import eval_expression_str
+
+        prog.resolver.current_scope.add_symbol("foo", 5)
+        eval_expression_str(text, prog.resolver)
+        return
     if via == "string":
         prog.assemble_string_with_emitter(text, "t.s", writer if writer is not None else RecWriter())
         return
@@ -140,6 +147,9 @@ def budget_for(text: str) -> int:
 
 
 def run_text(res: Res, text: str, family: str, via: str = "string") -> None:
+    if res.viol_counts.get("step-budget-exhausted", 0) + res.viol_counts.get("unterminated-block-comment", 0) > 60:
+        res.count("cases_skipped_after_60_violations_in_the_shard")      # each violation costs a full budget: the verdict is already clear
+        return
     key = {"text": text, "family": family, "via": via}
     if _hb["skip"] and json.dumps(key, sort_keys=True) in _hb["skip"]:
         res.count("skipped_after_stall")       # the driver decides this case separately (confirm_stall)
@@ -198,6 +208,7 @@ def plan(tier: str, seed: int) -> list[dict]:
     shards += [{"kind": "mutate", "seed": seed * 100_000 + i, "programs": progs} for i in range(mn)]
     shards += [{"kind": "recursion", "seed": seed * 100_000 + i, "n": 40 if tier == "quick" else 200} for i in range(4)]
     shards += [{"kind": "files", "seed": seed * 100_000 + i, "n": 60 if tier == "quick" else 600} for i in range(4)]
+    shards += [{"kind": "values", "part": i, "of": 4, "n": 200 if tier == "quick" else 3000} for i in range(4)]
     shards += [{"kind": "expr", "seed": seed * 100_000 + i, "n": 400 if tier == "quick" else 4000} for i in range(4)]
     return shards
 
@@ -281,6 +292,20 @@ def run_shard(shard: dict) -> Res:
                 run_text(res, text, "random")
                 if i == 0:
                     res.sample({"family": "random", "text": text})
+        elif shard["kind"] == "values":
+            # command-line definition values: every sequence of one or two tokens, and random longer ones
+            i = 0
+            for ln in (1, 2):
+                for combo in itertools.product(ALPHABET, repeat=ln):
+                    for j in (["", " "] if ln > 1 else [""]):
+                        i += 1
+                        if i % shard["of"] != shard["part"]:
+                            continue
+                        run_text(res, j.join(combo), "define-value", "define_value")
+            rng = random.Random(shard["part"])
+            for _ in range(shard["n"]):
+                run_text(res, " ".join(rng.choice(ALPHABET) for _ in range(rng.randint(3, 8))), "define-value", "define_value")
+            res.sample({"family": "define-value", "text": "0x10 + foo"})
         elif shard["kind"] == "expr":
             rng = random.Random(shard["seed"] ^ 0xE5)
             for i in range(shard["n"]):
